@@ -321,8 +321,16 @@ ENV_STRESSORS = [
 ]
 
 
+# user init code with module-level state (a counter, a memo): it belongs to ONE query - the next query starts it afresh
+STATEFUL_INIT = ("import itertools\n_ids = itertools.count(1)\ndef next_id():\n    return next(_ids)\nmemo = {}\ndef seen(x):\n    memo[x] = memo.get(x, 0) + 1\n    return memo[x]\n"
+                 "calls = [0]\ndef bump():\n    calls[0] += 1\n    return calls[0]\n")
+
+
 def environment_cases():
     out = [{'query_text': ENV_READER, 'A': [['r']], 'B': None, 'a_names': None, 'b_names': None, 'env': 'reader'}]
+    for q in ('select next_id(), a1', 'select seen(a1), a1 where bump() > 0', 'update a2 = next_id() * 10 + seen(a1)'):
+        for _copy in range(2):
+            out.append({'query_text': q, 'A': [['p', 'x'], ['q', 'y'], ['p', 'z']], 'B': None, 'a_names': None, 'b_names': None, 'env': 'stateful-init', 'init_code': STATEFUL_INIT})
     for q, A in ENV_STRESSORS:
         out.append({'query_text': q, 'A': A, 'B': None, 'a_names': None, 'b_names': None, 'env': 'stressor'})
     return out
@@ -1021,7 +1029,7 @@ def run_shard(spec, res):
 
 def summarize(tier, seed, m):
     return {
-        'rule': '%d scenarios (plain select, like, UNNEST, ORDER BY, DISTINCT COUNT, GROUP BY with all nine aggregates, JOIN, UPDATE with NU, TOP, syntax error, parsing error, runtime error at record 2, aggregate misuse, double UNNEST, and two pairs of identical query texts over differently ordered headers); solo results from one fresh interpreter per scenario; history: every sequence of length <= 2 plus random sequences of length 3..6 in one process; interleaving: every unordered pair of scenarios (incl. a scenario with itself) in two real threads under the cooperative scheduler, ALL interleavings of the get_record / write / finish steps enumerated by stateless DFS (%s); preemption stress with sys.monitoring LINE yield injection; generated queries (C01-C05 generators, failing variants, and header twins: the same query text over the same data with the columns in another order) whose solo results come from forked children of a query-free interpreter, together with a state-reading query (its result is interpreter-wide state: int/str digit limit, recursion limit, switch interval, decimal precision, locale, encodings, buffer size, TZ, csv field limit) and nine stress queries (5000-digit integers written before a failure, 200000-character cells, 3000-column records, float overflow), then run in three shuffled orders through one interpreter (probe sink and CSV writer sink) and pairwise in two threads under seeded random schedules; the JS port sequentially: generated language-neutral queries alone in a fresh node process each vs three shuffled histories (with failing queries interspersed) in one node process; the sqlite front-end with one connection shared by every ordered pair of 15 queries (utf-8 / latin-1 output, 7 of them failing) vs a fresh connection each, and the caller\'s connection settings before / after; the pandas front-end with ONE DataFrame object (and one join frame) serving histories of 3-6 queries while its owner re-labels, permutes, renames, adds, drops and overwrites columns in place between them, each result compared with the same query over a newly built equal frame in a forked child that ran no query; query_csv histories of 3-8 calls where the meaning of a query text depends on its surroundings (the same relative join table name next to inputs in three directories, a relative input path under a changing working directory, a ~/.rbql_table_names entry re-pointed between calls, dialect / encoding / header flag changing from call to call, failing calls in between), against forked-child baselines; histories of 3-7 queries over ONE list table object with typed cells (numbers, None, strings a CSV sink must quote) and one join table through list and CSV sinks, against fresh copies in forked children; the front-ends side by side: 8 threads running query_csv (five dialects / encodings, JOIN files, failing queries), query_pandas_dataframe and query_sqlite_to_csv under statement-level yield injection in the engine, CSV reader / writer, splitter and adapters, each result compared with a forked child that ran only that task. distinct_nontrivial = distinct step traces realised + distinct history sequences.' % (
+        'rule': '%d scenarios (plain select, like, UNNEST, ORDER BY, DISTINCT COUNT, GROUP BY with all nine aggregates, JOIN, UPDATE with NU, TOP, syntax error, parsing error, runtime error at record 2, aggregate misuse, double UNNEST, and two pairs of identical query texts over differently ordered headers); solo results from one fresh interpreter per scenario; history: every sequence of length <= 2 plus random sequences of length 3..6 in one process; interleaving: every unordered pair of scenarios (incl. a scenario with itself) in two real threads under the cooperative scheduler, ALL interleavings of the get_record / write / finish steps enumerated by stateless DFS (%s); preemption stress with sys.monitoring LINE yield injection; generated queries (C01-C05 generators, failing variants, and header twins: the same query text over the same data with the columns in another order) whose solo results come from forked children of a query-free interpreter, together with a state-reading query (its result is interpreter-wide state: int/str digit limit, recursion limit, switch interval, decimal precision, locale, encodings, buffer size, TZ, csv field limit) three queries whose user init code keeps module-level state (a counter, a memo; each twice), and nine stress queries (5000-digit integers written before a failure, 200000-character cells, 3000-column records, float overflow), then run in three shuffled orders through one interpreter (probe sink and CSV writer sink) and pairwise in two threads under seeded random schedules; the JS port sequentially: generated language-neutral queries alone in a fresh node process each vs three shuffled histories (with failing queries interspersed) in one node process; the sqlite front-end with one connection shared by every ordered pair of 15 queries (utf-8 / latin-1 output, 7 of them failing) vs a fresh connection each, and the caller\'s connection settings before / after; the pandas front-end with ONE DataFrame object (and one join frame) serving histories of 3-6 queries while its owner re-labels, permutes, renames, adds, drops and overwrites columns in place between them, each result compared with the same query over a newly built equal frame in a forked child that ran no query; query_csv histories of 3-8 calls where the meaning of a query text depends on its surroundings (the same relative join table name next to inputs in three directories, a relative input path under a changing working directory, a ~/.rbql_table_names entry re-pointed between calls, dialect / encoding / header flag changing from call to call, failing calls in between), against forked-child baselines; histories of 3-7 queries over ONE list table object with typed cells (numbers, None, strings a CSV sink must quote) and one join table through list and CSV sinks, against fresh copies in forked children; the front-ends side by side: 8 threads running query_csv (five dialects / encodings, JOIN files, failing queries), query_pandas_dataframe and query_sqlite_to_csv under statement-level yield injection in the engine, CSV reader / writer, splitter and adapters, each result compared with a forked child that ran only that task. distinct_nontrivial = distinct step traces realised + distinct history sequences.' % (
             len(SCENARIOS), '2-record tables' if tier == 'quick' else '2- and 3-record tables for all pairs (3-record pairs capped at 20000 schedules), 4-record tables for 6 selected pairs'),
         'exhaustive': m['counters'].get('pairs_truncated', 0) == 0,
         'required': ['shared_table_history_runs', 'shared_table_solo_results_from_forked_children', 'shared_table_history_sink:csv-quoted', 'shared_table_history_sink:list', 'csv_history_runs', 'csv_history_solo_results_from_forked_children', 'csv_history_solo_failing', 'environment_reader_and_stressor_cases', 'frontend_thread_runs', 'frontend_solo_results_from_forked_children', 'frontend_solo_failing', 'frontend_injected_yields', 'pandas_history_runs', 'pandas_history_solo_results_from_forked_children', 'pandas_history_solo_failing', 'pandas_history_op:relabel', 'pandas_history_op:add', 'sqlite_history_runs', 'sqlite_history_solo_failing', 'js_solo_results_from_fresh_node_processes', 'js_history_runs', 'generated_solo_results', 'generated_header_twins', 'generated_history_runs', 'generated_interleaved_schedules', 'generated_interleaved_handoffs', 'schedules', 'pairs_enumerated_completely', 'handoffs', 'history_runs', 'preemption_runs', 'line_events_in_main_loop', 'injected_yields'],
